@@ -362,7 +362,40 @@ func (p *prop) genEnf(rng *core.Rand) string {
 	return fmt.Sprintf("enf %s %s %s %s", strict, fmtPolicies(pols), sitesF, strings.Join(rs, ";"))
 }
 
+func (p *prop) genE2E(rng *core.Rand) string {
+	names := []string{"secret.test", "SECRET.test", "Secret.Test", "[secret.test]", "[secret.test", "secret.test]",
+		"[public.test]", "secret.test:443", "[SECRET.TEST]", "public.test]", " secret.test", "*.test"}
+	if rng.Chance(3, 5) { // names under which a handshake completes
+		names = []string{"public.test", "other.test", "x.secret.test", "secret", "test", "secret.tes", "ssecret.test", "secret.test.x", "PUBLIC.TEST", "localhost"}
+	}
+	sni := rng.Pick(names)
+	if rng.Chance(1, 6) {
+		sni = mixCase(rng, sni)
+	}
+	if !e2eSNIOK(sni) {
+		sni = "public.test"
+	}
+	var host string
+	switch x := rng.Intn(10); {
+	case x < 4:
+		host = hostVariant(rng, rng.Pick([]string{"secret.test", "public.test"}), "secret.test")
+	case x < 7:
+		host = sni
+	case x < 8:
+		host = mixCase(rng, sni) + ":443"
+	default:
+		host = hostVariant(rng, sni, "secret.test")
+	}
+	hs, _ := p.handshake(sni)
+	if hs != "f" && hs != "p0" && hs != "p1" {
+		hs = "f" // Run prints what it observes; the disagreement is then visible
+	}
+	return fmt.Sprintf("e2e %s %s %s", hs, core.Hex(sni), core.Hex(host))
+}
+
 var malformed = []string{
+	"e2e", "e2e f 2d 2d", "e2e p1 7075626c69632e74657374", "e2e p2 7075626c69632e74657374 2d", "e2e p1 3132372e302e302e31 2d", "e2e p1 612e 2d",
+	"e2e p1 c3a9 2d", "e2e f zz 2d", "e2e f 7075626c69632e74657374 2d x",
 	"", "pol", "enf", "xyz 1 2 3", "pol 0 . .", "pol 2 . 2d/0/6/0000000000000000", "pol 0 -/~/~", "pol 0 -/~ 2d/0/6/0000000000000000",
 	"pol 0 x/~/~ 2d/0/6/0000000000000000", "pol 0 dd/~/~ 2d/0/6/0000000000000000", "pol 0 -/zz/~ 2d/0/6/0000000000000000",
 	"pol 0 -/7b/~ 2d/0/6/0000000000000000", "pol 0 -/c3a9/~ 2d/0/6/0000000000000000", "pol 0 -/~/ba 2d/0/6/0000000000000000",
@@ -430,14 +463,14 @@ func (p *prop) Generate(rng *core.Rand, tier string, emit func(string)) {
 		emit("pol 0 . 2d/0/6/0000000000000000") // Run reports the setup failure
 		return
 	}
-	nPol, nEnf, nBad := 2500, 4000, 400
+	nPol, nEnf, nBad, nE2E := 8000, 12000, 800, 600
 	switch tier {
 	case "thorough":
-		nPol, nEnf, nBad = 40000, 60000, 4000
+		nPol, nEnf, nBad, nE2E = 60000, 100000, 5000, 6000
 	case "search":
-		nPol, nEnf, nBad = 6000, 8000, 0
+		nPol, nEnf, nBad, nE2E = 8000, 12000, 0, 600
 	}
-	rp, re, rb := rng.Fork(), rng.Fork(), rng.Fork()
+	rp, re, rb, r2 := rng.Fork(), rng.Fork(), rng.Fork(), rng.Fork()
 	for _, m := range malformed {
 		emit(m)
 	}
@@ -448,6 +481,9 @@ func (p *prop) Generate(rng *core.Rand, tier string, emit func(string)) {
 		}
 		if i < nEnf {
 			emit(p.genEnf(re))
+		}
+		if i < nE2E {
+			emit(p.genE2E(r2))
 		}
 		if i < nBad {
 			var base string
